@@ -176,6 +176,7 @@ class Program:
                 m.rel_to_root = os.path.relpath(path, self.root)
                 self.modules[rel] = m
         self.renamed = []
+        self.moved = {}                   # (module, function) of a definition moved there -> (module, function) it has in the reviewed copy
         if not os.environ.get("VERIF_NO_GATE"):
             try:
                 self._undo_renames()
@@ -376,7 +377,9 @@ class Program:
                     {n.name for n in ast.walk(rn) if isinstance(n, (ast.FunctionDef, ast.ClassDef))} | \
                     {h.name for n in ast.walk(rn) if isinstance(n, ast.Try) for h in n.handlers if h.name}
                 if used - own - bound:
-                    continue
+                    from . import recover as _rec
+                    if not _rec.usable_in(rn, m.tree, rtree):
+                        continue
                 cbody[ci] = rn
                 m.gated.append(q)
 
@@ -403,6 +406,16 @@ class Program:
                 a, b = recover.methods_of(cc), recover.methods_of(rc)
                 mc = {k: v for k, v in a.items() if k not in b}
                 mr = {k: v for k, v in b.items() if k not in a}
+                # methods inherited from base classes / mixins that exist on one side only
+                for side, (mod_tree, other_of, own, target) in {"cur": (m.tree, cur_ref, a, mc), "ref": (rtree, ref_cur, b, mr)}.items():
+                    klass = cc if side == "cur" else rc
+                    names = {cname}
+                    for base_cls in recover.new_bases(self, m, mod_tree, klass, other_of):
+                        names.add(base_cls.name)
+                        for k, v in recover.methods_of(base_cls).items():
+                            if k not in own:
+                                target.setdefault(k, v)
+                    target["__class_names__"] = names
         c2 = recover.with_helpers(cn, fc, mc)
         r2 = recover.with_helpers(rn, fr, mr)
         if c2 is None and r2 is None:
